@@ -164,6 +164,12 @@ func runC18(run *Run, replay string) {
 				cuts = append(cuts, b.Range().Start.Byte)
 			}
 			cut := cuts[r.Intn(len(cuts))]
+			switch (bi / 3) % 3 {
+			case 0:
+				cut = 0 // the name being typed is the file's first token
+			case 1:
+				cut = len(sc.Src)
+			}
 			if cut == 0 || sc.Src[cut-1] == '\n' {
 				nsrc0 := string(sc.Src[:cut]) + name + "\n" + string(sc.Src[cut:])
 				files := map[string]string{}
